@@ -160,8 +160,13 @@ def parse_san_logs(paths):
                 cls = ubsan_class(msg)
                 blk = [ln]
                 j = i + 1
-                while j < len(lines) and re.match(r'\s+#\d+ ', lines[j]):
-                    blk.append(lines[j]); j += 1
+                skipped = 0
+                while j < len(lines) and (re.match(r'\s+#\d+ ', lines[j]) or (skipped < 5 and len(blk) == 1 and 'runtime error' not in lines[j])):
+                    if re.match(r'\s+#\d+ ', lines[j]):
+                        blk.append(lines[j])
+                    else:
+                        skipped += 1
+                    j += 1
                 fn = innermost_lib_frame(blk) or os.path.basename(m2.group(1))
                 out.append(('ubsan:%s:%s' % (cls, fn), '\n'.join(blk[:30])))
                 i = j
@@ -335,7 +340,7 @@ def collect(outs, res):
             data = open(dp, 'rb').read()
             s = res.dist.setdefault(name, set())
             s.update(struct.unpack('<%dQ' % (len(data) // 8), data[:len(data) // 8 * 8]))
-        logs = glob.glob(out + '.san.*')
+        logs = glob.glob(out + '.san.*') + ([out + '.stdout'] if os.path.exists(out + '.stdout') else [])
         for key, exc in parse_san_logs(logs):
             res.san.append((key, exc, logs[0] if logs else ''))
 
